@@ -60,8 +60,9 @@ CLAIMS = {
             "to a generated body anywhere in src/generators, that matched expectations are re-emitted from original_string and unexpected lines "
             "through escaped_expectation(trim_newlines(line)) with ` (no-eol)` exactly on !ends_with(\\n), and the writer/reader tables for "
             "`$ `/`> ` and the `[code]` line.",
-            "Not decided: collisions between output text and test syntax (an output line `> x`, `[1]`, ending in ` (glob)`): whether rendering "
-            "and parsing are inverse there depends on the data, no escaping mechanism exists whose presence a rule could require.", "§4 C09"),
+            "Not decided: whether rendering and parsing are inverse on arbitrary output text. The writer/reader syntax-class cross-check (R9.8) "
+            "reports the four classes the reader gives a meaning to and the writer does not neutralise (modifier suffix, `[n]` line, `> ` and "
+            "`$ ` prefixes) as known findings (F21); any further class or a change of those is a violation.", "§4 C09, §8.8"),
     "C17": ("Decides that every free-text value interpolated by to_yaml_one_liner (environment keys/values, wait.path) passes a quoting function "
             "(crate-local helper whose every result is the argument under a character-class guard or serde_json::to_string of it), that the keys "
             "it writes equal the serde field names on the write and read side (and no field is unrendered), the enum name table, the "
@@ -127,7 +128,7 @@ CLAIMS = {
             "strategy against the language semantics, not a shape of the code).", "§4 C03"),
 }
 
-EXTRAS = {'C03': ' Also: a non-optional multiline expectation yields only after it consumed a line.', 'C06': " Also: consumed-line conservation in the tokenizer (every read line stored once or consumed as a delimiter), the closing-fence predicate is a prefix test against the opening fence, and the line parser's exact `$ `/`> ` prefixes with unmodified body text.", 'C08': " Also: the canonical rendering's ` (escaped)` decision (has_unprintable) and its rendering (escaped_printable) classify characters identically.", 'C09': ' Also: the escape-introducer and marker rules shared with C11, the sibling agreement of the three character-class predicates, ` (no-eol)` never after ` (escaped)` (guard as in OutputStream::to_output_string), and the command written back without trim/replace.', 'C10': ' Also: the stored original flows from the line through trim_newlines only, parser and update generator agree on which blocks carry a test case, commands are written back verbatim and re-read with the exact `$ `/`> ` prefixes.', 'C11': ' Also: the escape decision, the backslash-doubling flag and has_unprintable use one character class, and Escaper dispatches each mode to its own functions.', 'C12': ' Also: option dumps precede function/variable dumps, and the state directory path reaches the template unmodified in a double-quoted position.', 'C13': " Also: in the Cram script the user's expression is followed by an empty line before scrut's footer.", 'C14': ' Also: the remaining document time is deadline.map(total saturating subtraction) (never `no limit` after the deadline), and Popen::kill dominates every ExitStatus::Timeout result.', 'C15': ' Also: the compared skip code is looked up on the test case of the current loop iteration.', 'C16': ' Also: each key of the command-line layer is control-dependent only on its own flag(s).', 'C18': ' Also: the bash state file is written inside the owned TempDir (path unmodified, double-quoted position) and a timed-out child is killed so that it cannot re-create removed directories.', 'C20': ' Also: every zip(outputs, testcases) is positional (no filter/skip on either side) and no Result of the document discovery/reading layer is dropped or logged-and-skipped.', 'C02': " C01's accounting obligations (cursors move only past recorded lines/expectations; ranged Matched records non-empty for non-optional expectations) are reported under C02 as well.", 'C01': ' Also: a ranged Matched record covers at least one line unless the expectation is optional; has_differences may equivalently be `count_matched < lines.len()` if Diff::new counts exactly one per Matched record.'}
+EXTRAS = {'C19': ' Also: every render arm of the malformed-output and diff renderers must pass through a write of each of its payload parts (must-pass-through per arm).', 'C03': ' Also: a non-optional multiline expectation yields only after it consumed a line.', 'C06': " Also: consumed-line conservation in the tokenizer (every read line stored once or consumed as a delimiter), the closing-fence predicate is a prefix test against the opening fence, and the line parser's exact `$ `/`> ` prefixes with unmodified body text.", 'C08': " Also: the canonical rendering's ` (escaped)` decision (has_unprintable) and its rendering (escaped_printable) classify characters identically.", 'C09': ' Also: the escape-introducer and marker rules shared with C11, the sibling agreement of the three character-class predicates, ` (no-eol)` never after ` (escaped)` (guard as in OutputStream::to_output_string), and the command written back without trim/replace; ` (no-eol)` never after ` (escaped)`; writer/reader syntax-class cross-check (R9.8).', 'C10': ' Also: the stored original flows from the line through trim_newlines only, parser and update generator agree on which blocks carry a test case, commands are written back verbatim and re-read with the exact `$ `/`> ` prefixes.', 'C11': ' Also: the escape decision, the backslash-doubling flag and has_unprintable use one character class, and Escaper dispatches each mode to its own functions.', 'C12': ' Also: option dumps precede function/variable dumps, and the state directory path reaches the template unmodified in a double-quoted position.', 'C13': " Also: in the Cram script the user's expression is followed by an empty line before scrut's footer.", 'C14': ' Also: the remaining document time is deadline.map(total saturating subtraction) (never `no limit` after the deadline), and Popen::kill dominates every ExitStatus::Timeout result.', 'C15': ' Also: the compared skip code is looked up on the test case of the current loop iteration.', 'C16': ' Also: each key of the command-line layer is control-dependent only on its own flag(s).', 'C18': ' Also: the bash state file is written inside the owned TempDir (path unmodified, double-quoted position) and a timed-out child is killed so that it cannot re-create removed directories; the variables scrut sets per test case against the exclusion list of the persisted state (R18.6, known finding F20).', 'C20': ' Also: every zip(outputs, testcases) is positional (no filter/skip on either side) and no Result of the document discovery/reading layer is dropped or logged-and-skipped.', 'C02': " C01's accounting obligations (cursors move only past recorded lines/expectations; ranged Matched records non-empty for non-optional expectations) are reported under C02 as well.", 'C01': ' Also: a ranged Matched record covers at least one line unless the expectation is optional; has_differences may equivalently be `count_matched < lines.len()` if Diff::new counts exactly one per Matched record.'}
 
 PENDING = "static rules for this property are designed (DESIGN.md §4) but not yet implemented in this revision"
 
